@@ -147,10 +147,22 @@ def run(tier, seed):
             base = 500000 + 100 * ii
             grand = {"id": base + 50}
             leaves = [{"id": base + k, "calls": [{"fn": "n2", "spec": grand, "catch": True}]} if k == 0 else {"id": base + k} for k in range(nk)]
+            # every other case: the sub-calls are ordinary calls, and some of them fail WITHOUT leaving a memento (an exception
+            # that is not to be memoized, a result of a type that cannot be stored); the caller catches the failure
+            failing = ii % 2 == 1
+            if failing:
+                form = "single"
+                for k, lf in enumerate(leaves):
+                    if k == 1:
+                        lf["raise"] = {"cls": "NonMemoized", "msg": "transient"}
+                    elif k == 2:
+                        lf["ret"] = {"k": "unstorable"}
+                if nk == 1:
+                    leaves[0]["raise"] = {"cls": "NonMemoized", "msg": "transient"}
             if form == "batch":
                 calls = [{"fn": "n1", "batch": leaves, "ignore": True, "catch": True}]
             else:
-                calls = [{"fn": "n1", "spec": lf, "ignore": True, "catch": True} for lf in leaves]
+                calls = [{"fn": "n1", "spec": lf, "ignore": not failing, "catch": True} for lf in leaves]
             rspec = {"id": base + 99, "calls": calls}
             want_inv = [base + k for k in range(nk)]
             want_deps = sorted(["n0", "n1", "n2"])
@@ -159,10 +171,13 @@ def run(tier, seed):
                 kind = rng.choice(["mem", "fs", "fs_cache"])
                 storage = R.make_storage(kind, scratch, "ig%d_%d" % (ii, si))
                 _fl.set_env(m, scratch, {"fc": (storage, None)})
-                meta = {"root": rspec, "form": form, "pre_memoized": [leaves[k]["id"] for k in subset], "backend": kind}
+                meta = {"root": rspec, "form": form, "pre_memoized": [leaves[k]["id"] for k in subset], "backend": kind, "sub-calls": "some fail without a memento" if failing else "made with ignore_result()"}
                 try:
                     for k in subset:
-                        _fm.n1(leaves[k])
+                        try:
+                            _fm.n1(leaves[k])
+                        except Exception:
+                            pass            # a failing leaf leaves nothing behind
                     _fm.n0(rspec)
                     mm = _fm.n0.memento(rspec)
                     total += 1
